@@ -27,7 +27,8 @@ using bspline::support::Support;
 // throws std::bad_alloc. Used to observe what a call leaves behind when it
 // fails in the middle (built-in scalar types only; not under ASan, whose own
 // operator new must stay in place).
-#if !defined(VF_HAVE_ASAN) && !defined(VT_Q) && !defined(_GLIBCXX_DEBUG)
+#if !defined(VF_HAVE_ASAN) && !defined(VT_Q) && !defined(_GLIBCXX_DEBUG) && \
+    !defined(VF_NO_FAILPOINTS)
 #define VF_FAILPOINTS 1
 namespace fp {
 long countdown = 0;
@@ -1273,6 +1274,11 @@ struct Machine {
         !(*gridA == *gridB) || *gridA == *gridC || !(*gridA != *gridC))
       viol("C15", "grid-equality", desc);
     c.count("pred:support-eq");
+    {
+      const std::string lie = predicateNearMisses(a, g);
+      if (!lie.empty()) viol("C15", "near-miss", splineStr(a) + ": " + lie);
+      c.count("pred:near-misses");
+    }
     endStep();
   }
 
